@@ -280,7 +280,7 @@ fn main() {
     );
     rep.assume("O2 op-relation semantics as in DESIGN.md appendix A (intermediate_out and hint outputs unconstrained)");
     rep.assume("source relations evaluated locally through Circuit::expr_to_widx");
-    let n = args.tier.pick(40_000usize, 3_000_000usize);
+    let n = args.tier.pick(160_000usize, 3_000_000usize);
     let (seed, tier) = (args.seed, args.tier);
     let from: usize = args.extra.get("from").and_then(|s| s.parse().ok()).unwrap_or(0);
     let n = args.extra.get("to").and_then(|s| s.parse::<usize>().ok()).map(|t| t - from).unwrap_or(n);
